@@ -74,7 +74,7 @@ class Pool:
     typing_flavour = False
 
     def __len__(self) -> int:
-        return 9
+        return 10
 
     def __getitem__(self, i: int) -> Any:
         if i < 6:
@@ -89,6 +89,10 @@ class Pool:
             from typing import Annotated
 
             return Annotated[T0, "unit: metres"]
+        if i == 9:
+            # a PEP 604 union object used as a type of its own (every access makes a fresh, equal object): given explicitly it is one
+            # key, different from the keys of its members
+            return T2 | T3
         return dict[str, T1]  # type: ignore[valid-type]
 
     def __iter__(self) -> Any:
@@ -985,8 +989,9 @@ class Engine:
         elif name == "default" and self.lookup_serial % 3 == 2:
             nargs = ()
 
-        if t == 8 and api.startswith("inject"):
-            # (as a parameter annotation the Annotated wrapper would be metadata - stripped - and not this key: looked up directly)
+        if t in (8, 9) and api.startswith("inject"):
+            # (as a parameter annotation the Annotated wrapper would be metadata - stripped - and not this key, and a union would be
+            # a choice of types, not this key: looked up directly)
             api = "async" if api == "inject_async" else "nowait"
 
         async def call() -> Any:
@@ -1478,8 +1483,8 @@ class Engine:
             if rng.random() < p["p_invalid"]:
                 cmd["types"] = rng.choice(["missing", "none_in_types"])
                 cmd["annotated"] = False
-            if isinstance(cmd["types"], list) and 8 in cmd["types"]:
-                cmd["annotated"] = False  # (in a return annotation the Annotated wrapper is metadata and is stripped: not this key)
+            if isinstance(cmd["types"], list) and (8 in cmd["types"] or 9 in cmd["types"]):
+                cmd["annotated"] = False  # (in a return annotation the Annotated wrapper is metadata and is stripped, a union is split: not this key)
             return cmd
         # lookups: bias towards keys that exist somewhere
         keys = list(mc.resources) + list(mc.factories) * 3
